@@ -179,6 +179,71 @@ def _dispatch(item):
     return check_one(item)
 
 
+def check_json_quote():
+    """ctx/json-quote: the text of a JSON literal is JSON (strings in double quotes) whatever the dialect: the
+    identifier quote characters of the context do not occur in it (only in the alias suffix)"""
+    from ..values import IteA
+    from .positions import shape_of
+    r = repo()
+    ci = r.cls("terms.JSON")
+    fi = ci.resolve("get_sql")[1]
+    run = run_function(fi, ci)
+    name = f"{fi.short}@{ci.short}"
+    if run.error:
+        return [Obligation(PROP, f"{name}|ctx/json-quote", "ctx/json-quote", fi.short, UNSUPPORTED, reason=run.error)]
+    ex = run.ex
+    bad = []
+    for o in run.outcomes:
+        if o.status != "return":
+            continue
+        ex.st = o.state
+        ex.frames = []
+        sh = shape_of(ex, o.value)
+        body = [a for a in sh.atoms if not (isinstance(a, IteA) and "self.alias" in repr(a))]
+        txt = repr(body)
+        for q in ("ctx.quote_char", "ctx.alias_quote_char", "ctx.secondary_quote_char"):
+            if q in txt and q != "ctx.secondary_quote_char":
+                bad.append(f"the JSON text depends on {q}")
+    return [Obligation(PROP, f"{name}|ctx/json-quote", "ctx/json-quote", fi.short, REFUTED if bad else PROVED,
+                       detail="no identifier quote character of the context inside a JSON literal",
+                       reason="; ".join(sorted(set(bad))),
+                       witness={"family": "call", "oracle": "json_dialect", "args": []})]
+
+
+def check_setop_wrap():
+    """ctx/setop-wrap: whether the operands of a set operation are bracketed is the convention of the governing
+    (base) statement's dialect for every operand, not each operand's own"""
+    r = repo()
+    ci = r.cls("queries._SetOperation")
+    fi = ci.resolve("get_sql")[1]
+    run = run_function(fi, ci)
+    name = f"{fi.short}@{ci.short}"
+    if run.error:
+        return [Obligation(PROP, f"{name}|ctx/setop-wrap", "ctx/setop-wrap", fi.short, UNSUPPORTED, reason=run.error)]
+    ex = run.ex
+    bad, n = [], 0
+    for o in run.outcomes:
+        if o.status == "raise":
+            continue
+        ex.st = o.state
+        for ef, g, _l in flat_calls(o.state.effects):
+            if ef.method != "get_sql" or ef.recv is None:
+                continue
+            rk = recv_key(ex, ef, o.state)
+            if not (rk == "self.base_query" or rk.startswith("self._set_operation")):
+                continue
+            n += 1
+            cv = ctx_arg(ex, o.state, ef)
+            fv = field_of(ex, o.state, cv, "subquery") if cv is not None else None
+            if fv is None or "self.base_query.wrap_set_operation_queries" not in repr(fv) or \
+                    repr(fv).count("wrap_set_operation_queries") != 1:
+                bad.append(f"{rk} is rendered with subquery={fv!r}")
+    return [Obligation(PROP, f"{name}|ctx/setop-wrap", "ctx/setop-wrap", fi.short, REFUTED if bad or not n else PROVED,
+                       detail=f"{n} operand render(s) take the bracketing flag from self.base_query.wrap_set_operation_queries",
+                       reason="; ".join(sorted(set(bad))[:2]) or ("" if n else "no operand render found"),
+                       witness={"family": "call", "oracle": "dialect_nesting", "args": []})]
+
+
 def generate(tier="quick"):
     r = repo()
     t = render_targets(r)
@@ -203,6 +268,8 @@ def generate(tier="quick"):
             ob.key = ob.key.replace("|lit/", "|ctx/escape/")
             ob.kind = "ctx/escape"
             obs.append(ob)
+    obs += check_json_quote()
+    obs += check_setop_wrap()
     return obs, {"functions": sorted({x[0] for x in t}) + ["pypika_tortoise.context.SqlContext.copy"],
                  "closed_world": sorted({c for x in t for c in x[2]}),
                  "assumptions": ["a context component counts as unchanged only if it is syntactically the incoming "
